@@ -9,6 +9,11 @@ R-PLUMB      the filter handed to a child is the one obtained by indexing the
              parseVariant branches on allowArray/allowObject/allowValue and
              selects the parse routine or the skip routine of the same kind;
              AllowAllFilter's predicates are the literal true.
+R-TRUTHY     the keep decision of a filter entry (Filter::allow) is the
+             library's own truthiness conversion of the entry: allow() reaches
+             VariantData::asBoolean in the resolved call graph ("a true-ish
+             entry keeps the member"; a decision assembled from the kind
+             predicates alone drops members whose entry is "yes" or 2).
 R-NUL        keys reach the filter with their length.
 R-NULLDST    null-destination discipline of the MessagePack reader (+ lemma
              R-FILTERIDX).
@@ -102,6 +107,21 @@ def run(ctx, prog):
             rets = [j for j in fn.walk() if fn.s(j)["k"] == "ReturnStmt"]
             ok = len(rets) == 1 and fn.s(fn.strip(fn.s(rets[0])["c"][0], casts=True)).get("v") is True
             ctx.ob(rule, "AllowAllFilter::%s() is the literal true" % fn.name, ok, fn.where, "", nontrivial=False)
+
+    rule = "R-TRUTHY"
+    asb = {f.key for f in prog.q("VariantData::asBoolean")}
+    nt = 0
+    for fn in sorted(prog.fns.values(), key=lambda f: f.key):
+        if fn.cls.endswith("DeserializationOption::Filter") and fn.name == "allow":
+            nt += 1
+            hit = prog.reachable([fn.key]) & asb
+            path = prog.find_path(fn.key, hit) if hit else None
+            ctx.ob(rule, "Filter::allow() is the truthiness of the entry", bool(hit) and bool(asb), fn.where,
+                   ("via " + " -> ".join(prog.fns[k].short for k in path)) if hit else
+                   "Filter::allow() no longer reaches VariantData::asBoolean: whether a member is kept is not decided by the "
+                   "truthiness of its filter entry (entries such as \"yes\" or 2 are true-ish and must keep the member)")
+    ctx.floor(rule, "Filter::allow definitions", nt, 1)
+    ctx.doc(rule, "Filter::allow() reaches VariantData::asBoolean (call-graph must-reach)")
 
     nul.run(ctx, prog, rule="R-NUL", only_files=["Json/JsonDeserializer.hpp", "MsgPack/MsgPackDeserializer.hpp", "Deserialization/",
                                                  "Memory/StringBuffer.hpp", "Memory/StringBuilder.hpp"])
